@@ -39,7 +39,7 @@ class Geometry:
     def vertex(self, gv):
         return [self.V[i, gv] for i in range(3)]
 
-    def point(self, frame, s, t):
+    def point(self, frame, s, t, E=None):
         """Barycentric combination on global vertices `frame` = (V0, V1, V2)."""
         p0, p1, p2 = (self.vertex(g) for g in frame)
         return [p0[i] * (1 - s - t) + p1[i] * s + p2[i] * t for i in range(3)]
@@ -65,6 +65,39 @@ class Geometry:
 
     def std_frame(self, E):
         return tuple(int(self.el[k, E]) for k in range(3))
+
+
+class FieldGeometry(Geometry):
+    """Geometry read from the fields of a grid-data container (vertices, jacobians, normals, integration elements, J^-T) without
+    assuming any relation between them: x_E(xi) = v0_E + J_E xi is the definition of local2global."""
+
+    def __init__(self, data):
+        self.d = data
+        self.V = data.vertices
+        self.el = np.asarray(data.elements)
+
+    def point(self, frame, s, t, E=None):
+        xi = self.local_coords(E, frame, s, t)
+        v0 = self.vertex(int(self.el[0, E]))
+        J = self.d.jacobians[E]
+        return [v0[i] + J[i, 0] * xi[0] + J[i, 1] * xi[1] for i in range(3)]
+
+    def int_elem(self, E):
+        return self.d.integration_elements[E]
+
+    def normal(self, E):
+        return [self.d.normals[E, i] for i in range(3)]
+
+    def curls(self, E, nm):
+        """n x (J^-T grad_ref lambda_i), grad_ref = (-1,-1), (1,0), (0,1)"""
+        Ji = self.d.jac_inv_trans[E]
+        n = self.normal(E)
+        ref = [(-1, -1), (1, 0), (0, 1)]
+        out = []
+        for a, b in ref:
+            g = [Ji[i, 0] * a + Ji[i, 1] * b for i in range(3)]
+            out.append([(n[1] * g[2] - n[2] * g[1]) * nm, (n[2] * g[0] - n[0] * g[2]) * nm, (n[0] * g[1] - n[1] * g[0]) * nm])
+        return out
 
 
 def _pair_frames(geo_t, geo_r, E, F, same_grid):
@@ -96,8 +129,36 @@ def _pair_frames(geo_t, geo_r, E, F, same_grid):
     return "vertex_adjacent", out
 
 
-def local_integrals(geo_t, geo_r, E, F, same_grid, test_shape, trial_shape, nm_t, nm_r, K, par, regular_rule, duffy):
+def scalar_form(test_shape, trial_shape):
+    """phi_f(x) psi_g(y)"""
+
+    def form(geo_t, geo_r, E, F, lx, ly, nm_t, nm_r):
+        phi = shape_values(test_shape, *lx)
+        psi = shape_values(trial_shape, *ly)
+        return [[phi[f] * psi[g] for g in range(len(psi))] for f in range(len(phi))]
+
+    return form
+
+
+def surface_curls(geo, E, nm):
+    """n x grad_Gamma(lambda_i) for the three P1 hat functions of element E, from the vertices only:
+    curl_0 = (v1 - v2)/|J|, curl_1 = (v2 - v0)/|J|, curl_2 = (v0 - v1)/|J| (times the normal multiplier)."""
+    v = [geo.vertex(int(geo.el[k, E])) for k in range(3)]
+    J = geo.int_elem(E)
+    pairs = [(1, 2), (2, 0), (0, 1)]
+    return [[(v[a][i] - v[b][i]) / J * nm for i in range(3)] for a, b in pairs]
+
+
+def curl_curl_form(geo_t, geo_r, E, F, lx, ly, nm_t, nm_r):
+    """curl_Gamma phi_f . curl_Gamma psi_g  (P1 x P1, constant on the element pair)"""
+    ct = geo_t.curls(E, nm_t) if hasattr(geo_t, "curls") else surface_curls(geo_t, E, nm_t)
+    cr = geo_r.curls(F, nm_r) if hasattr(geo_r, "curls") else surface_curls(geo_r, F, nm_r)
+    return [[sum(ct[f][i] * cr[g][i] for i in range(3)) for g in range(3)] for f in range(3)]
+
+
+def local_integrals(geo_t, geo_r, E, F, same_grid, test_shape, trial_shape, nm_t, nm_r, K, par, regular_rule, duffy, form=None):
     """List of candidate (nshape_test x nshape_trial) arrays of the local integral, one per admissible frame choice."""
+    form = form or scalar_form(test_shape, trial_shape)
     kind, frames = _pair_frames(geo_t, geo_r, E, F, same_grid)
     nx = [c * nm_t for c in geo_t.normal(E)]
     ny = [c * nm_r for c in geo_r.normal(F)]
@@ -110,23 +171,22 @@ def local_integrals(geo_t, geo_r, E, F, same_grid, test_shape, trial_shape, nm_t
         else:
             pt, pr, w = duffy[kind]
             terms = [(pt[0, q], pt[1, q], pr[0, q], pr[1, q], w[q]) for q in range(len(w))]
-        nt = len(shape_values(test_shape, 0, 0))
-        nr = len(shape_values(trial_shape, 0, 0))
-        out = np.empty((nt, nr), dtype=object)
-        out.fill(0)
+        out = None
         for s1, t1, s2, t2, w in terms:
-            x = geo_t.point(fe, s1, t1)
-            y = geo_r.point(ff, s2, t2)
+            x = geo_t.point(fe, s1, t1, E)
+            y = geo_r.point(ff, s2, t2, F)
             lx = geo_t.local_coords(E, fe, s1, t1)
             ly = geo_r.local_coords(F, ff, s2, t2)
-            phi = shape_values(test_shape, *lx)
-            psi = shape_values(trial_shape, *ly)
+            coef = form(geo_t, geo_r, E, F, lx, ly, nm_t, nm_r)
+            if out is None:
+                out = np.empty((len(coef), len(coef[0])), dtype=object)
+                out.fill(0)
             k = K(x, y, nx, ny, par) * w
-            for f in range(nt):
-                for g in range(nr):
-                    out[f, g] = out[f, g] + k * phi[f] * psi[g]
-        for f in range(nt):
-            for g in range(nr):
+            for f in range(out.shape[0]):
+                for g in range(out.shape[1]):
+                    out[f, g] = out[f, g] + k * coef[f][g]
+        for f in range(out.shape[0]):
+            for g in range(out.shape[1]):
                 out[f, g] = out[f, g] * jac
         cands.append(out)
     return kind, cands
